@@ -45,8 +45,8 @@ RULE = (
     "shape so that every operation is valid for the state it meets; after every write shape/den/well-formedness of "
     "T and S are compared with the NumPy model, every read with np.ix_ semantics.  Single-operation cells: one "
     "read or one write per (class, key form) from a generated start state; enumerated cell: every region key over a "
-    "per-mode alphabet of ints (incl. negative), slices (with/without bounds) and index lists on fixed small "
-    "shapes.  Non-trivial: history = contains a write after a growth, or a write whose values mix zero and "
+    "per-mode alphabet of ints (incl. negative), slices (with/without bounds, stepped, reversed, negative bounds) and "
+    "index lists on fixed small shapes, reads also over starts holding one / no stored nonzero.  Non-trivial: history = contains a write after a growth, or a write whose values mix zero and "
     "non-zero, or a write to an entry that S stores out of F order; single write = changes the model or grows it; "
     "single read = a tensor with >= 2 entries and (a full subscript or >= 2 addressed positions).  Classes in which pyttb is known to "
     "break the property (known_findings/C04.json) are recognised exactly from (operation, state) and carried as a "
@@ -58,9 +58,29 @@ RULE = (
 )
 ASSUMPTIONS = [
     "data movement only: every comparison is exact (NaN-aware equality, -0.0 == 0.0)",
-    "index lists hold distinct non-negative indices; subscript arrays hold distinct non-negative rows; slices have "
-    "non-negative bounds, step 1 and address at least one index; a slice without stop is never used for a mode "
-    "that does not exist yet (sptensor documents this as rejected)",
+    "index lists hold distinct non-negative indices; subscript arrays hold distinct non-negative rows; a slice "
+    "without stop is never used for a mode that does not exist yet (sptensor documents this as rejected)",
+    "slice forms (round 2; the docstrings only say 'ranges' and show unit-step slices, so the accepted forms were "
+    "established on the unchanged tree against NumPy): reads (region and linear, dense and sparse) accept every python "
+    "slice - steps, negative steps, negative bounds, bounds beyond the extent (clipped) - with NumPy's meaning; writes "
+    "of a scalar / zero (both classes) and of arrays / tensors (dense), and dense linear-slice writes, accept all of "
+    "them within the present extent; a region write grows only through a positive step whose stop lies beyond the "
+    "extent, and both classes then grow to `stop` (generated with stop = last addressed index + 1 so that the grown "
+    "extent is unambiguous); negative bounds count from the present extent and never grow; sparse region writes of "
+    "an sptensor through a non-plain slice are accepted silently but misplace the values (known finding C04-S8).  "
+    "Every slice addresses at least one index: an empty region is rejected by sptensor reads (ValueError from the "
+    "constructor: a zero extent is not a valid sparse shape) while dense reads return an empty tensor, so the two "
+    "classes cannot be compared there",
+    "derived start states (round 2): dense starts are constructed (float64, or int64 for integer-valued data) or "
+    "grown by assignment (gen.build_tensor prov='grown': C-ordered buffer, numpy.int64 shape entries); sparse starts "
+    "come from the constructor (float64 or int64 values), optionally with explicitly stored zeros (the state S*0 or "
+    "the unvalidated constructor leave behind) or passed through permute by the identity (numpy.int64 shape entries). "
+    " An explicitly stored zero that was there at the start may stay until its position is assigned (after that, "
+    "and everywhere else, a stored zero is a violation: 'assigning zero removes a sparse entry'); reads of regions "
+    "holding such zeros may return them as stored zeros",
+    "integer dtypes: only integer-valued data and right-hand sides meet an int64 holder (NumPy truncates a "
+    "fractional value assigned into an integer array: that is dtype semantics, not an indexing matter); vector / "
+    "array right-hand sides are int64 arrays one time in three, whatever the dtype of the target",
     "negative integers count from the end of the present extent and never grow the tensor; linear indices never "
     "grow the tensor (documented)",
     "a mode indexed by an index list of length one may be kept (size 1) or dropped in the result of a read; the "
@@ -92,6 +112,7 @@ KNOWN_TAGS = (
     "sprhs-list-extent",
     "sprhs-npint",
     "single-row-list",
+    "sprhs-slice-form",
 )
 
 
@@ -162,12 +183,25 @@ def _wf_clause(probs) -> str:
     return "wellformed(" + ",".join(kinds) + ")"
 
 
-def check_write(ctx, what: str, X, holder: str, B: np.ndarray) -> bool:
+def _stray_zeros(X, ez) -> List[str]:
+    """stored zeros of S outside the positions that held an explicit zero at the start and were not assigned since"""
+    vals = np.asarray(X.vals).reshape(-1)
+    if X.subs.size == 0 or not (vals == 0).any():
+        return []
+    for r, v in zip(np.asarray(X.subs), vals):
+        if v == 0 and tuple(int(i) for i in r) not in ez:
+            return ["explicit-zero-stored"]
+    return []
+
+
+def check_write(ctx, what: str, X, holder: str, B: np.ndarray, ez=frozenset()) -> bool:
     ok = ctx.check(_shape_of(X) == B.shape, f"{what}:shape", f"{_shape_of(X)} vs model {B.shape}")
     if not ok:
         return False
     if holder == "S":
-        probs = ref.sptensor_problems(X)
+        probs = ref.sptensor_problems(X, allow_explicit_zero=bool(ez))
+        if ez and not probs:
+            probs = _stray_zeros(X, ez)
         if not ctx.check(not probs, f"{what}:{_wf_clause(probs)}", probs):
             return False
     D = ref.den(X)
@@ -192,7 +226,7 @@ def _is_number(r) -> bool:
         isinstance(r, np.ndarray) and r.ndim == 0 and r.dtype.kind in "biuf")
 
 
-def check_read(ctx, what: str, r, holder: str, shape, key, expect) -> bool:
+def check_read(ctx, what: str, r, holder: str, shape, key, expect, ez=frozenset()) -> bool:
     kind, exp = expect
     if kind == "scalar":
         ok = ctx.check(_is_number(r), f"{what}:type", type(r).__name__)
@@ -217,7 +251,7 @@ def check_read(ctx, what: str, r, holder: str, shape, key, expect) -> bool:
     if not ctx.check(isinstance(r, want), f"{what}:type", type(r).__name__):
         return False
     if holder == "S":
-        probs = ref.sptensor_problems(r)
+        probs = ref.sptensor_problems(r, allow_explicit_zero=bool(ez))
         if not ctx.check(not probs, f"{what}:{_wf_clause(probs)}", probs):
             return False
     if not ctx.check(_shape_of(r) in oksh, f"{what}:shape", f"{_shape_of(r)} vs {sorted(oksh)}"):
@@ -227,19 +261,73 @@ def check_read(ctx, what: str, r, holder: str, shape, key, expect) -> bool:
     return ctx.check(ref.same_exact(got, want_v), f"{what}:values", ref.diff_info(got, want_v))
 
 
+def _build_T(start, A):
+    """dense start: constructor (float64 or, for integer-valued data, int64) or the grown state (gen.build_tensor)"""
+    shape = tuple(start["shape"])
+    if start.get("dtype") == "int64":
+        return ttb.tensor(A.astype(np.int64).copy(order="F"), shape)
+    if start.get("provT") == "grown":
+        return gen.build_tensor(dict(shape=list(shape), data=[float(x) for x in A.reshape(-1, order="F")], prov="grown"))
+    return ttb.tensor(A.copy(order="F"), shape)
+
+
+def _build_S(start):
+    """sparse start, reached through the public API only: the constructor from subscripts in the generated stored order;
+    'ez' = the constructor given explicitly stored zeros too (the state S*0 / scaling by zero also leave behind);
+    provS 'npshape' = passed through permute by the identity order, which leaves numpy.int64 entries in shape;
+    dtype int64 = integer values held in an integer array (as in the class docstring examples)."""
+    shape = tuple(start["shape"])
+    subs = [list(r) for r in start["subs"]]
+    vals = list(start["vals"])
+    for pos, at in start.get("ez") or []:
+        at = min(at, len(subs))
+        subs.insert(at, list(pos))
+        vals.insert(at, 0.0)
+    if not subs:
+        S = ttb.sptensor(shape=shape)
+    else:
+        dt = np.int64 if start.get("dtype") == "int64" else float
+        S = ttb.sptensor(np.array(subs, dtype=int).reshape(len(subs), len(shape)),
+                         np.array(vals, dtype=dt).reshape(-1, 1), shape)
+    if start.get("provS") == "npshape":
+        try:
+            P = S.permute(np.arange(len(shape)))
+            if _shape_of(P) == shape and np.array_equal(ref.den(P), ref.den(S)):
+                S = P
+        except Exception:  # noqa: BLE001  (permute is judged by C07; here only the state it leaves matters)
+            pass
+    return S
+
+
 class State:
     def __init__(self, start):
         self.A = gen.dense_of_sparse_case(start)
+        self.ez = frozenset(tuple(pos) for pos, _ in (start.get("ez") or []))
         if len(start["shape"]) == 0:
             self.X = {"T": ttb.tensor(), "S": ttb.sptensor()}  # the empty tensors (order 0)
         else:
-            self.X = {
-                "T": ttb.tensor(self.A.copy(order="F"), tuple(start["shape"])),
-                "S": gen.build_sptensor(start),
-            }
+            self.X = {"T": _build_T(start, self.A), "S": _build_S(start)}
         self.alive = {"T": True, "S": True}
         self.grew = False
         self.nt = False
+
+
+def _label_start(ctx, start, st_, holders) -> None:
+    """labels for the derived states / dtypes actually reached (read off the objects, not off the request)"""
+    if "T" in holders:
+        T = st_.X["T"]
+        if gen.is_grown(T):
+            ctx.label("start:T-grown")
+        if np.asarray(T.data).dtype.kind in "iu":
+            ctx.label("start:T-int64")
+    if "S" in holders:
+        S = st_.X["S"]
+        if any(isinstance(n, np.integer) for n in S.shape):
+            ctx.label("start:S-numpy-int-shape")
+        if S.vals.size and np.asarray(S.vals).dtype.kind in "iu":
+            ctx.label("start:S-int64")
+        if st_.ez:
+            ctx.label("start:S-explicit-zeros")
 
 
 def _stored_unsorted(S) -> bool:
@@ -257,13 +345,20 @@ def step(ctx, st: State, op: Dict[str, Any], holders=("T", "S"), try_known=True)
     key, rhs = op["key"], op.get("rhs")
     form = _form(key)
     is_write = op["op"] == "w"
+    ez = st.ez
     if is_write:
         B = M.model_write(A, key, rhs)
-        vals = M.rhs_values(rhs, len(M.positions(shape, key)))
+        pos_w = M.positions(shape, key)
+        if ez:
+            # an explicitly stored zero stays legitimate until its position is assigned
+            ez = frozenset(p + (0,) * (B.ndim - len(p)) for p in ez) - {tuple(int(i) for i in p) for p in pos_w}
+        vals = M.rhs_values(rhs, len(pos_w))
         mixed = bool((vals == 0).any() and (vals != 0).any())
         if st.grew or mixed or (st.alive["S"] and "S" in holders and _stored_unsorted(st.X["S"])):
             st.nt = True
         ctx.label(f"w-{form}", "rhs-" + rhs["r"] + ("-zero" if rhs["r"] == "scalar" and rhs["v"] == 0 else ""))
+        if rhs.get("idt"):
+            ctx.label("rhs-int64-array")
         if B.shape != A.shape:
             ctx.label("grow-order" if B.ndim != A.ndim else "grow-extent")
             st.grew = True
@@ -272,6 +367,16 @@ def step(ctx, st: State, op: Dict[str, Any], holders=("T", "S"), try_known=True)
     else:
         expect = M.model_read(A, key)
         ctx.label(f"r-{form}")
+        if form == "region" and not np.any(expect[1]):
+            ctx.label("r-region-without-nonzero")
+    if key["f"] == "tuple" or key["f"] == "linslice":
+        sl = [c for e in (key["k"] if key["f"] == "tuple" else [key]) if not M.is_int(e) and "s" in e
+              for c in M.slice_classes(e)]
+        general = sorted({c for c in sl if c != "slice-plain"})
+        if general:
+            ctx.label(*[("w-" if is_write else "r-") + ("lin" if key["f"] == "linslice" else "") + c for c in general])
+            if not is_write and form == "region" and not np.any(expect[1]):
+                ctx.label("r-general-slice-region-without-nonzero")
     for h in holders:
         if not st.alive[h]:
             continue
@@ -283,18 +388,18 @@ def step(ctx, st: State, op: Dict[str, Any], holders=("T", "S"), try_known=True)
             if tags and not try_known:
                 ctx.label(*[f"excluded:{t}" for t in tags])
                 ok = _guard(ctx, f"{h}.write-{_form(k)}(equivalent)", lambda: dodge_write(X, h, shape, k, r, tags))
-                ok = ok and check_write(ctx, f"{h}.write-{_form(k)}(equivalent)", X, h, B)
+                ok = ok and check_write(ctx, f"{h}.write-{_form(k)}(equivalent)", X, h, B, ez)
             else:
                 snap = copy.deepcopy(X) if tags else None
                 if tags:
                     ctx.label(*[f"exercised:{t}" for t in tags])
                 ok = _guard(ctx, what, lambda: do_write(X, h, shape, k, r))
-                ok = ok and check_write(ctx, what, X, h, B)
+                ok = ok and check_write(ctx, what, X, h, B, ez)
                 if not ok and tags:
                     # known class: go on behind it with the equivalent form on the snapshot
                     st.X[h] = X = snap
                     ok = _guard(ctx, f"{h}.write-{_form(k)}(equivalent)", lambda: dodge_write(X, h, shape, k, r, tags))
-                    ok = ok and check_write(ctx, f"{h}.write-{_form(k)}(equivalent)", X, h, B)
+                    ok = ok and check_write(ctx, f"{h}.write-{_form(k)}(equivalent)", X, h, B, ez)
             if not ok:
                 st.alive[h] = False
         else:
@@ -309,11 +414,12 @@ def step(ctx, st: State, op: Dict[str, Any], holders=("T", "S"), try_known=True)
                 ctx.label(*[f"exercised:{t}" for t in tags])
             got = []
             if _guard(ctx, what, lambda: got.append(X[M.py_key(k)])):
-                check_read(ctx, what, got[0], h, shape, k, M.model_read(A, k) if k is not key else expect)
+                check_read(ctx, what, got[0], h, shape, k, M.model_read(A, k) if k is not key else expect, ez)
             # a read must leave the state alone
-            check_write(ctx, what + ":state-after-read", X, h, A)
+            check_write(ctx, what + ":state-after-read", X, h, A, ez)
     if is_write:
         st.A = B
+        st.ez = ez
 
 
 def _guard(ctx, what: str, fn) -> bool:
@@ -336,7 +442,55 @@ def _caps(tier):
 
 
 @st.composite
-def _elem(draw, n: Optional[int], grow: int, kinds=("int", "neg", "slice", "list", "arr")):
+def _general_slice(draw, n: int, g: int, write: bool):
+    """A slice element in a form other than non-negative-bounds/unit-step, constructed from the index set it is to
+    address (never filtered): first index, step in {1, 2, 3, -1, -2} and count are drawn, then each bound is written in
+    one of its equivalent spellings - omitted where python's default gives the same set, counted from the end
+    (negative), or explicit; for reads also a bound beyond the extent, which python clips.  Accepted forms (established
+    on the unchanged tree, see ASSUMPTIONS): all of them for reads and for writes within the present extent; growth
+    (g > 0) only through a positive step and a stop one past the last addressed index."""
+    hi = n + g
+    step = draw(st.sampled_from([2, 2, 3, -1, -1, -2, 1]))
+    if g:
+        step = abs(step) if step != 1 else 2
+        last = draw(st.integers(n, hi - 1))
+        k = draw(st.integers(1, last // step + 1))
+        first = last - (k - 1) * step
+        return dict(s=[None if first == 0 and draw(st.booleans()) else first, last + 1, step])
+    first = draw(st.integers(0, n - 1))
+    kmax = ((n - 1 - first) // step if step > 0 else first // (-step)) + 1
+    k = draw(st.integers(1, kmax))
+    if kmax > 1 and k == 1 and draw(st.booleans()):
+        k = kmax
+    last = first + (k - 1) * step
+    # spellings of the start
+    starts = [first, first - n]
+    if (step > 0 and first == 0) or (step < 0 and first == n - 1):
+        starts.append(None)
+        if step < 0 and not write:
+            starts.append(n + draw(st.integers(0, 2)))  # clipped to n - 1
+        if step > 0 and not write:
+            starts.append(-n - draw(st.integers(1, 2)))  # clipped to 0
+    a = draw(st.sampled_from(starts))
+    # spellings of the stop
+    if step > 0:
+        stops = [last + 1] + ([last + 1 - n] if last + 1 < n else [])
+        if last + step >= n:
+            stops.append(None)
+            if not write:
+                stops.append(n + draw(st.integers(1, 3)))  # clipped
+    else:
+        stops = [last - 1, last - 1 - n] if last >= 1 else [None, -n - 1]
+        if last + step < 0:
+            stops.append(None)
+    b = draw(st.sampled_from(stops))
+    if step == 1 and (a is None or a >= 0) and (b is None or b >= 0):
+        a = first - n  # the unit step comes here only for its negative-bound spellings
+    return dict(s=[a, b, step] if (step != 1 or draw(st.booleans())) else [a, b])
+
+
+@st.composite
+def _elem(draw, n: Optional[int], grow: int, kinds=("int", "neg", "slice", "list", "arr"), write: bool = True):
     """One key element for a mode of present extent n (None = new trailing mode); grow = extra extent allowed."""
     if n is None:
         kind = draw(st.sampled_from(["int", "int", "slice", "list"]))
@@ -354,6 +508,8 @@ def _elem(draw, n: Optional[int], grow: int, kinds=("int", "neg", "slice", "list
         return draw(st.integers(n, hi - 1)) if g and draw(st.booleans()) else draw(st.integers(0, hi - 1))
     if kind == "neg":
         return -draw(st.integers(1, n))
+    if kind == "slice" and draw(st.booleans()):
+        return draw(_general_slice(n, g, write))
     if kind == "slice":
         a = draw(st.one_of(st.none(), st.integers(0, hi - 1)))
         lo = (a or 0) + 1
@@ -393,7 +549,7 @@ def _tuple_key(draw, shape, form: str, write: bool, room: float, max_order: int)
     budget = room
     for n in shape:
         g = grow if budget >= (n + 2) / n else (1 if (grow and budget >= (n + 1) / n) else 0)
-        e = draw(_elem(n, g))
+        e = draw(_elem(n, g, write=write))
         ext = max(n, M.elem_extent(e, n))
         budget /= ext / n
         k.append(e)
@@ -401,7 +557,7 @@ def _tuple_key(draw, shape, form: str, write: bool, room: float, max_order: int)
         k.append(draw(_elem(None, 0)))
     if all(M.is_int(e) for e in k):
         m = draw(st.integers(0, N - 1))
-        k[m] = draw(_elem(shape[m], 0, kinds=("slice", "list", "arr")))
+        k[m] = draw(_elem(shape[m], 0, kinds=("slice", "list", "arr"), write=write))
     return _maybe_np(draw, dict(f="tuple", k=k))
 
 
@@ -427,11 +583,13 @@ def _subs_key(draw, shape, write: bool, room: float, max_order: int, max_p: int)
 
 
 @st.composite
-def _lin_key(draw, shape, max_p: int):
+def _lin_key(draw, shape, max_p: int, write: bool = True):
     n = ref.prod(shape)
     f = draw(st.sampled_from(["lin", "linlist", "linarr", "linslice"]))
     if f == "lin":
         return dict(f="lin", i=draw(st.integers(-n, n - 1)))
+    if f == "linslice" and draw(st.booleans()):
+        return dict(f="linslice", s=draw(_general_slice(n, 0, write))["s"])
     if f == "linslice":
         a = draw(st.one_of(st.none(), st.integers(0, n - 1)))
         b = draw(st.one_of(st.none(), st.integers((a or 0) + 1, n)))
@@ -462,7 +620,7 @@ def _key(draw, shape, write: bool, form: Optional[str], tier: str, cap: int):
     elif form == "subs":
         key = draw(_subs_key(shape, write, room, max_order, max_p))
     else:
-        key = draw(_lin_key(shape, max_p))
+        key = draw(_lin_key(shape, max_p, write))
     if write and ref.prod(M.grown_shape(shape, key)) > cap:
         # over the size cap: fall back to a key of the same form that does not grow
         if form in ("full", "region"):
@@ -503,22 +661,37 @@ def _rhs(draw, shape, key, vkind: str):
         return dict(r="scalar", v=draw(gen.values(vkind, nonzero=True)), int=False, np=draw(st.booleans()))
     pattern = draw(st.sampled_from(["nonzero", "nonzero", "mixed", "mixed", "zero"]))
     vals = draw(_values(count, vkind, pattern))
+    # integer-valued right-hand sides are held in an int64 array one time in three (whatever the dtype of the target)
+    extra = dict(idt=True) if (vkind == "int" and draw(st.integers(0, 2)) == 0) else {}
     if form == "region":
         return dict(r="array", v=vals, **{"as": draw(st.sampled_from(["ndarray", "tensor"])),
-                                          "sp": draw(st.sampled_from(["sorted", "reverse"]))})
-    return dict(r="vec", v=vals, **{"as": draw(st.sampled_from(["ndarray", "list"]))})
+                                          "sp": draw(st.sampled_from(["sorted", "reverse"]))}, **extra)
+    return dict(r="vec", v=vals, **{"as": draw(st.sampled_from(["ndarray", "list"]))}, **extra)
 
 
 EMPTY_START = dict(shape=[], subs=[], vals=[], vkind="int", pattern="none", order="sorted")
 
 
-def _start(tier, allow_empty=False):
+@st.composite
+def _start(draw, tier, allow_empty=False):
     c0, _, _ = _caps(tier)
-    base = gen.sparse_case(tier, min_order=1, max_cells=c0)
-    if not allow_empty:
-        return base
     # one start in twelve is the empty tensor ttb.tensor() / ttb.sptensor() (order 0): the first write creates every mode
-    return st.integers(0, 11).flatmap(lambda i: st.just(dict(EMPTY_START)) if i == 0 else base)
+    if allow_empty and draw(st.integers(0, 11)) == 0:
+        return dict(EMPTY_START)
+    sc = draw(gen.sparse_case(tier, min_order=1, max_cells=c0))
+    # derived states / dtypes of the two holders (see _build_T / _build_S)
+    sc["provT"] = draw(st.sampled_from(["ctor", "ctor", "grown"]))
+    sc["provS"] = draw(st.sampled_from(["ctor", "ctor", "npshape"]))
+    if sc["vkind"] == "int" and draw(st.integers(0, 2)) == 0:
+        sc["dtype"] = "int64"
+    if draw(st.integers(0, 3)) == 0:
+        A = gen.dense_of_sparse_case(sc)
+        zeros = [list(int(i) for i in p) for p in np.argwhere(A == 0)]
+        if zeros:
+            k = draw(st.integers(1, min(2, len(zeros))))
+            idx = draw(st.lists(st.integers(0, len(zeros) - 1), min_size=k, max_size=k, unique=True))
+            sc["ez"] = [[zeros[i], draw(st.integers(0, len(sc["subs"])))] for i in idx]
+    return sc
 
 
 @st.composite
@@ -579,9 +752,10 @@ def _run_history(ctx, case):
     start = case["start"]
     ctx.label(f"order{len(start['shape'])}", "pattern-" + start["pattern"], "stored-" + start["order"])
     st_ = State(start)
+    _label_start(ctx, start, st_, ("T", "S"))
     if len(start["shape"]):
         for X, h in ((st_.X["T"], "T"), (st_.X["S"], "S")):
-            check_write(ctx, f"{h}.start", X, h, st_.A)
+            check_write(ctx, f"{h}.start", X, h, st_.A, st_.ez)
     else:
         ctx.label("empty-start")
     nsteps = 0
@@ -621,8 +795,9 @@ def _run_single(ctx, case, holder: str):
     if holder == "S":
         ctx.label("stored-" + start["order"])
     st_ = State(start)
+    _label_start(ctx, start, st_, (holder,))
     A0 = st_.A
-    npos = len(M.positions(shape, op["key"]))
+    npos = len(M.positions(shape, op["key"], write=op["op"] == "w"))
     step(ctx, st_, op, holders=(holder,), try_known=True)
     if op["op"] == "w":
         ctx.nt = st_.A.shape != A0.shape or not np.array_equal(st_.A, A0)
@@ -670,13 +845,19 @@ def _alphabet(n: int, write: bool):
     out += [dict(s=[None, None]), dict(s=[0, 1])]
     if n > 1:
         out += [dict(s=[1, None]), dict(s=[None, n - 1]), dict(s=[1, n])]
+    # general slices: stepped, reversed, negative bounds (within the present extent)
+    out += [dict(s=[None, None, 2]), dict(s=[None, None, -1])]
+    if n > 1:
+        out += [dict(s=[1, None, 2]), dict(s=[n - 1, 0, -1]), dict(s=[-n, -1]), dict(s=[-1, None])]
+    if n > 2:
+        out += [dict(s=[-1, None, -2])]
     out += [dict(l=[0]), dict(a=[n - 1])]
     if n > 1:
         out += [dict(l=[n - 1, 0]), dict(a=[0, n - 1])]
     if n > 2:
         out += [dict(l=[1, 2, 0])]
     if write:
-        out += [n, dict(s=[None, n + 1]), dict(l=[n, 0])]
+        out += [n, dict(s=[None, n + 1]), dict(l=[n, 0]), dict(s=[n % 2, n + 1, 2])]
     return out
 
 
@@ -690,11 +871,19 @@ def _enum_keys(tier):
             for k in itertools.product(*alph):
                 for holder in ("T", "S"):
                     yield dict(shape=list(sh), key=dict(f="tuple", k=list(k)), op=opk, holder=holder)
+                    if opk == "r":
+                        # the same read where the region holds at most one / no stored nonzero
+                        for fill in ("one", "none"):
+                            yield dict(shape=list(sh), key=dict(f="tuple", k=list(k)), op=opk, holder=holder, fill=fill)
 
 
-def _enum_start(shape):
+def _enum_start(shape, fill=None):
     n = ref.prod(shape)
-    data = [float(((i * 5) % 7) - 2) for i in range(n)]  # contains zeros, repeated and negative values
+    data = [float(((i * 5) % 7) - 2) for i in range(n)]  # contains zeros (from 7 cells on), repeated and negative values
+    if fill == "one":
+        data = [3.0 if i == n - 1 else 0.0 for i in range(n)]
+    elif fill == "none":
+        data = [0.0] * n
     A = gen.arr_F(shape, data)
     sc = gen.sparse_case_from_dense(A)
     sc["subs"], sc["vals"] = sc["subs"][::-1], sc["vals"][::-1]  # stored in reverse F order
@@ -706,8 +895,9 @@ def _enum_start(shape):
 def enumerated_region_keys(ctx, case):
     """every region key over a per-mode alphabet (ints incl. negative, slices with/without bounds, lists, growth
     elements for writes) x {read, write 0, write 7.0} x {tensor, sptensor} on fixed shapes"""
-    start = _enum_start(case["shape"])
+    start = _enum_start(case["shape"], case.get("fill"))
     st_ = State(start)
+    ctx.label("fill-" + (case.get("fill") or "some"))
     opk = case["op"]
     op = dict(op="r" if opk == "r" else "w", key=case["key"])
     if opk != "r":
@@ -772,7 +962,7 @@ def _case_tags(case) -> set:
         A = gen.dense_of_sparse_case(case["start"])
         return _possible_tags(list(A.shape), A, case["op"], case["start"]["subs"])
     # enumerated
-    start = _enum_start(case["shape"])
+    start = _enum_start(case["shape"], case.get("fill"))
     A = gen.dense_of_sparse_case(start)
     op = dict(op="r" if case["op"] == "r" else "w", key=case["key"])
     if case["op"] != "r":
